@@ -230,6 +230,69 @@ theorem parseWith_ok (fuel : Nat) (hf : 32 * blen c.src + 1 ≤ fuel) : OutOk c 
         | tok k sp => exact ⟨hr'.1.2.1, by intro x hx; cases hx⟩
         | invalid sp => exact ⟨hr'.1, by intro x hx; cases hx⟩
 
+omit hl W in
+theorem signature_spec (n : Nat) {s0 : PState} (h : InvB 2 c s0) :
+    SpecR c (FB n 0 s0) (Post c s0 1 fun _ _ => True) (signature c n s0) := by
+  unfold signature
+  pb take_spec T _ h (by omega)
+  intro _ s1 ⟨hi1, hm1, hn1, _⟩
+  pb typeParameters_spec T n hi1
+  intro k s2 ⟨hi2, hm2, hn2, _⟩
+  pb separated_spec T (typeExpr c n) _ _ _ n (F := FB n 0 s0) hi2 (by omega)
+    (fun s3 hi3 hm3 => (typeExpr_spec T n hi3).mono (by intro hF; simp only [FB] at hF ⊢; omega)
+      fun _ _ hp => hp.weak)
+  intro ps s3 ⟨hi3, hm3, hn3, _⟩
+  pb nextIs_spec T _ hi3
+  intro b s4 ⟨hi4, hm4, hn4, _⟩
+  have hret : SpecR c (FB n 0 s0) (Post c s4 0 fun _ _ => True)
+      (if b = true then (typeExpr c n s4).bind fun t s => PR.ok [sx "Ret" [t.sx]] s else PR.ok [] s4) := by
+    cases b with
+    | false => exact ⟨hi4, by omega, by omega, trivial⟩
+    | true =>
+      simp only [if_true]
+      pb typeExpr_spec T n hi4
+      intro t s5 ⟨hi5, hm5, hn5, _⟩
+      exact ⟨hi5, by omega, by omega, trivial⟩
+  pb hret
+  intro ret s5 ⟨hi5, hm5, hn5, _⟩
+  exact ⟨hi5, by omega, by omega, trivial⟩
+
+omit hl W in
+/-- `Parser::parse_signature` with any fuel of at least `32 · len + 1` -/
+theorem parseSignatureWith_ok (fuel : Nat) (hf : 32 * blen c.src + 1 ≤ fuel) :
+    OutOk c (parseSignatureWith c fuel) := by
+  unfold parseSignatureWith
+  have hr := Reach.new c.src
+  have h0 : InvB 2 c ⟨Lexer.new c.src, [], [], none⟩ :=
+    ⟨hr, by simp, by simp, by simp, by intro x hx; cases hx⟩
+  have hμ : μ ⟨Lexer.new c.src, [], [], none⟩ ≤ blen c.src := by
+    simp only [μ, qtoks, Lexer.new]; omega
+  have hspec := signature_spec T fuel h0
+  revert hspec
+  cases signature c fuel ⟨Lexer.new c.src, [], [], none⟩ with
+  | panic => exact id
+  | fuel => intro hF; simp only [SpecR, FB] at hF; omega
+  | err e s =>
+    intro ⟨h1, _, h3⟩
+    exact ⟨h1, h3⟩
+  | ok t s =>
+    intro ⟨hi, _, _, _⟩
+    dsimp only
+    have hn := lexNext_spec T hi
+    revert hn
+    cases lexNext c s with
+    | panic => exact id
+    | fuel => exact id
+    | err e s' => intro ⟨h1, h2, _⟩; exact ⟨h1, by intro x hx; rw [h2] at hx; cases hx⟩
+    | ok r s' =>
+      intro ⟨hi', _, _, hr'⟩
+      cases r with
+      | none => exact fun x hx => hi'.sp x (by simpa using hx)
+      | some it =>
+        cases it with
+        | tok k sp => exact ⟨hr'.1.2.1, by intro x hx; cases hx⟩
+        | invalid sp => exact ⟨hr'.1, by intro x hx; cases hx⟩
+
 end
 
 end RotoV.Parse
